@@ -1,12 +1,14 @@
 (* Property C13 — malformed input is rejected, never crashes, never hangs, never alters earlier
    well-formed entries. Statements only; proofs in Proofs/AmmoSafetyProofs.v,
-   Proofs/AmmoPrefixProofs.v, Proofs/AmmoRobustProofs.v, Proofs/AmmoConfigInputProofs.v. Every theorem about a decoder
+   Proofs/AmmoPrefixProofs.v, Proofs/AmmoRobustProofs.v, Proofs/AmmoConfigInputProofs.v,
+   Proofs/AmmoJsonRejectProofs.v, Proofs/AmmoVarSourceProofs.v. Every theorem about a decoder
    quantifies over ALL byte strings (no well-formedness hypothesis) and over the third-party
    parser oracles. *)
 From Coq Require Import List NArith ZArith Bool.
 From PV Require Import Lib.AmmoBytes Lib.AmmoDecimal Lib.AmmoLines Model.AmmoCommon Model.AmmoUri
-  Model.AmmoUripost Model.AmmoRaw Model.AmmoJson Model.AmmoRobust Model.AmmoConfigInput
-  Proofs.AmmoSafetyProofs Proofs.AmmoPrefixProofs Proofs.AmmoRobustProofs Proofs.AmmoConfigInputProofs.
+  Model.AmmoUripost Model.AmmoRaw Model.AmmoJson Model.AmmoRobust Model.AmmoConfigInput Model.AmmoJsonReject Model.AmmoVarSource
+  Proofs.AmmoSafetyProofs Proofs.AmmoPrefixProofs Proofs.AmmoRobustProofs Proofs.AmmoConfigInputProofs
+  Proofs.AmmoJsonRejectProofs Proofs.AmmoVarSourceProofs.
 Import ListNotations.
 
 (* [bad r] = the Scan ended in a panic or ran out of fuel. The fuel of every loop is linear
@@ -270,4 +272,131 @@ Example C13_examples :
   property_resolve (fun _ => Some []) [47; 102]%N = VErr /\
   (* an empty source ends with io.EOF at the first Read *)
   mp_reads 2 0 0 16 {| mp_pos := 0; mp_passes := 0; mp_read_in_pass := false |} = [(0%Z, true); (0%Z, true)].
+Proof. repeat split; vm_compute; reflexivity. Qed.
+
+(* ---------- round 6: http/json entries that are JSON but not entries ---------- *)
+
+(* the specification of an entity (method empty or a token, "http://" ++ host ++ uri a URL) is exactly what
+   the decoder accepts, for every url parser *)
+Theorem C13_json_entity_spec :
+  forall url_parse (d : entity),
+    entity_okb url_parse d = true <-> exists e, entity_entry url_parse d = inl e.
+Proof. exact entity_spec. Qed.
+Print Assumptions C13_json_entity_spec.
+
+(* line form, streaming: for EVERY list of entities with a malformed one, whatever follows it and however
+   the stream ends: the provider delivers exactly the entries in front of the first malformed entity and
+   then fails (as long as Limit does not stop the run before it is reached) *)
+Theorem C13_json_malformed_entity_rejected_stream :
+  forall url_parse (ents : list entity) (e : jend) (limit passes : N) (k : nat),
+    entities_okb url_parse ents = false ->
+    (length (good_prefix url_parse ents) < k)%nat ->
+    (limit = 0%N \/ (length (good_prefix url_parse ents) < N.to_nat limit)%nat) ->
+    exists es er, read_array url_parse (good_prefix url_parse ents) = Some es /\
+      length es = length (good_prefix url_parse ents) /\
+      json_provider url_parse false limit passes k (JFStream e) ents = Some (map SDeliver es ++ [SErr er]).
+Proof. exact stream_malformed_rejected. Qed.
+Print Assumptions C13_json_malformed_entity_rejected_stream.
+
+(* with preload the whole file is refused: Run fails, nothing is delivered *)
+Theorem C13_json_malformed_entity_rejected_preload :
+  forall url_parse (ents : list entity) (e : jend) (limit passes : N) (k : nat),
+    entities_okb url_parse ents = false ->
+    exists er, json_provider url_parse true limit passes k (JFStream e) ents = Some [SErr er].
+Proof. exact preload_malformed_rejected. Qed.
+Print Assumptions C13_json_malformed_entity_rejected_preload.
+
+(* array form: the constructor fails exactly when an element is malformed, at any position *)
+Theorem C13_json_array_accepted_iff_all_wellformed :
+  forall url_parse (ents : list entity) pre limit passes k,
+    (entities_okb url_parse ents = false -> json_provider url_parse pre limit passes k JFArray ents = None) /\
+    (entities_okb url_parse ents = true -> json_provider url_parse pre limit passes k JFArray ents <> None).
+Proof. intros. split; [apply array_malformed_rejected|apply array_wellformed_accepted]. Qed.
+Print Assumptions C13_json_array_accepted_iff_all_wellformed.
+
+(* the provider model (construction, LoadAmmo, runPreloaded, runFullScan) never panics or runs out of fuel *)
+Theorem C13_json_provider_no_panic :
+  forall url_parse pre limit passes k form (ents : list entity) rs,
+    json_provider url_parse pre limit passes k form ents = Some rs ->
+    Forall (fun r => bad r = false) rs.
+Proof. exact json_provider_safe. Qed.
+Print Assumptions C13_json_provider_no_panic.
+
+(* non-vacuity: a url parser that refuses a space; {host "a b"} between two good entities *)
+Definition ex_url_nospace (u : bytes) : option (bytes * bytes) :=
+  if has 32%N u then None else Some (u, []).
+Definition ex_ent (host : bytes) : entity :=
+  {| j_host := host; j_method := GET; j_uri := [47]%N; j_headers := []; j_tag := []; j_body := [] |}.
+Example C13_json_examples :
+  let ents := [ex_ent [97]%N; ex_ent [97; 32; 98]%N; ex_ent [99]%N] in
+  entities_okb ex_url_nospace ents = false /\
+  length (good_prefix ex_url_nospace ents) = 1%nat /\
+  (exists e1, json_provider ex_url_nospace false 0 0 5 (JFStream JEof) ents = Some [SDeliver e1; SErr EUrlParse]) /\
+  json_provider ex_url_nospace true 0 0 5 (JFStream JEof) ents = Some [SErr EUrlParse] /\
+  json_provider ex_url_nospace false 0 0 5 JFArray ents = None /\
+  (exists e1 e3, json_provider ex_url_nospace true 3 0 5 (JFStream JEof) [ex_ent [97]%N; ex_ent [99]%N]
+     = Some [SDeliver e1; SDeliver e3; SDeliver e1; SAmmoLimit]).
+Proof.
+  repeat split; try (vm_compute; reflexivity).
+  - eexists. vm_compute. reflexivity.
+  - eexists. eexists. vm_compute. reflexivity.
+Qed.
+
+(* ---------- round 6: the file/csv variable source of a scenario description ---------- *)
+
+(* for EVERY field list of the description (shorter, equal, longer than the records), every list of records
+   the csv reader yields (also ragged ones, also records without fields), with or without a reading error,
+   file present or not: initialising the source does not panic *)
+Theorem C13_csv_source_no_panic :
+  forall file_exists (fields : list bytes) ignore_first (recs : list (list bytes)) ends_in_error,
+    csv_source file_exists fields ignore_first recs ends_in_error <> VPanic.
+Proof. exact csv_source_no_panic. Qed.
+Print Assumptions C13_csv_source_no_panic.
+
+(* what the statement rests on: the same loop without the `i >= len(record)` guard panics as soon as the
+   description names more fields than the file has columns *)
+Theorem C13_csv_source_unguarded_refuted :
+  exists (fields : list bytes) (recs : list (list bytes)),
+    read_csv false fields false recs false [] = VPanic /\
+    read_csv true fields false recs false [] <> VPanic.
+Proof.
+  exists [[97]; [98]; [99]]%N, [[[120]; [121]]]%N. split; [vm_compute; reflexivity|apply read_csv_no_panic].
+Qed.
+Print Assumptions C13_csv_source_unguarded_refuted.
+
+(* the outcome is the specification: a reading error anywhere is the error of the source; otherwise one row
+   per record that is not skipped, built by the total function [row_spec] *)
+Theorem C13_csv_source_is_spec :
+  forall (fields : list bytes) ignore_first (recs : list (list bytes)) ends_in_error,
+    Forall (fun rc : list bytes => rc <> []) recs ->
+    csv_source true fields ignore_first recs ends_in_error =
+      if ends_in_error then VErr else VOk (rows_spec fields ignore_first recs).
+Proof. exact csv_source_rows. Qed.
+Print Assumptions C13_csv_source_is_spec.
+
+(* a missing column reads as the empty string, a present one as itself (for a key no later field re-uses) *)
+Theorem C13_csv_row_missing_column_reads_empty :
+  forall (fields record : list bytes) j f,
+    nth_error fields j = Some f ->
+    (forall j' f', (j < j')%nat -> nth_error fields j' = Some f' ->
+                   beq (field_key j f) (field_key j' f') = false) ->
+    hget (field_key j f) (row_spec fields 0 record []) = Some (nth j record []).
+Proof. exact row_spec_value. Qed.
+Print Assumptions C13_csv_row_missing_column_reads_empty.
+
+(* the constructor initialises the sources in order: it panics only if a source does *)
+Theorem C13_variable_sources_no_panic :
+  forall srcs, Forall (fun s : rres (list vrow) => s <> VPanic) srcs -> init_sources srcs <> VPanic.
+Proof. exact init_sources_no_panic. Qed.
+Print Assumptions C13_variable_sources_no_panic.
+
+Example C13_csv_examples :
+  (* fields a, b, c over the two-column records x,y and 1,2; first line ignored: one row, c reads as "" *)
+  csv_source true [[97]; [98]; [99]]%N true [[[120]; [121]]; [[49]; [50]]]%N false
+    = VOk [[([97], [49]); ([98], [50]); ([99], [])]]%N /\
+  (* no field list: names from the first record ("user id" -> "user_id"), an empty name is the column index *)
+  csv_source true [] false [[[117; 32; 105]; []]]%N false = VOk [[([117; 95; 105], [117; 32; 105]); ([49], [])]]%N /\
+  (* reading error after a good record: the error of the source *)
+  csv_source true [[97]]%N false [[[120]]]%N true = VErr /\
+  csv_source false [[97]]%N false [] false = VErr.
 Proof. repeat split; vm_compute; reflexivity. Qed.
